@@ -7,7 +7,7 @@ regenerated constants `Facts.MaxColumns`, `Facts.MinColumns`, `Facts.TotalRows`;
 `limits_ok` pins the values the arithmetic below relies on, so an edit of the
 constants in templates.go breaks this file.
 -/
-import XlModel.Lemmas.Ref5
+import XlModel.Lemmas.Ref8
 
 namespace XlModel.Props.C20
 open XlModel XlModel.Ref
@@ -223,6 +223,150 @@ theorem range_encode_decode (c1 r1 c2 r2 : Nat) (abs : Bool)
       (numToName c1 ++ itoaAux r1) ++ ':' :: (numToName c2 ++ itoaAux r2) := by simp
   rw [e, splitColon_two _ _ (nc c1 r1) (nc c2 r2)]
   simp only [d1, d2]
+
+/-! ## `JoinCellName` / `SplitCellName` agree with the cell codecs -/
+
+/-- **exact acceptance of `JoinCellName`** (as transcribed): it accepts iff the
+column name is non-empty and consists of ASCII letters only and the row is at
+least 1 — there is NO upper bound on the row and none on the column (`ZZZZ`,
+row 1048577 are joined): it is a purely syntactic inverse of `SplitCellName`,
+the grid limits are enforced by the cell codecs only. The result is the
+upper-cased letters followed by the decimal row. -/
+theorem join_accepts_iff (col : List Char) (row : Int) :
+    (∃ s, joinCellName col row = .ok s) ↔
+      col ≠ [] ∧ (∀ c ∈ col, isLetter c = true) ∧ 1 ≤ row := by
+  constructor
+  · rintro ⟨s, h⟩
+    obtain ⟨a, b, c, _⟩ := (joinCellName_ok_iff col row s).mp h
+    exact ⟨a, b, c⟩
+  · rintro ⟨a, b, c⟩
+    exact ⟨_, (joinCellName_ok_iff col row _).mpr ⟨a, b, c, rfl⟩⟩
+
+/-- the value `JoinCellName` returns -/
+theorem join_value (col : List Char) (row : Int) (s : List Char) (h : joinCellName col row = .ok s) :
+    s = col.map toUpper ++ itoaAux row.toNat :=
+  ((joinCellName_ok_iff col row s).mp h).2.2.2
+
+/-- **join → split**: for every accepted `(col, row)` (row inside Go's `int`),
+`SplitCellName (JoinCellName col row) = (upper col, row)`. Holds outside the grid too. -/
+theorem join_split (col : List Char) (row : Int) (s : List Char)
+    (h : joinCellName col row = .ok s) (hint : row < 9223372036854775808) :
+    splitCellName s = .ok (col.map toUpper, row) :=
+  split_of_join h hint
+
+/-- **split → join**: for every accepted cell name `s` (accepted by
+`CellNameToCoordinates`, i.e. every strict A1 spelling inside the grid, absolute
+markers and leading zeros included), `SplitCellName s` returns a column name that
+`ColumnNameToNumber` decodes to the cell's column and the cell's row, and
+`JoinCellName` of the two parts is the canonical relative spelling of the same
+cell: exactly what `CoordinatesToCellName` returns for its coordinates, which
+decodes to the same coordinates again. -/
+theorem split_join (s : List Char) (ci ri : Int) (h : cellNameToCoordinates s = .ok (ci, ri)) :
+    ∃ col canon, splitCellName s = .ok (col, ri) ∧ columnNameToNumber col = .ok ci ∧
+      joinCellName col ri = .ok canon ∧ coordinatesToCellName ci ri false = .ok canon ∧
+      cellNameToCoordinates canon = .ok (ci, ri) := by
+  obtain ⟨c, r, hs, rfl, rfl⟩ := shape_of_decode h
+  obtain ⟨L, hsplit, hraw, hLl, hL, hjoin⟩ := split_join_of_shape hs
+  obtain ⟨_, _, _, _, _, _, _, _, _, _, _, _, hc1, hc2, _, hr1, hr2⟩ := hs
+  have henc := cell_encode_eq c r false hc1 hc2 hr1 hr2
+  simp only [Bool.false_eq_true, if_false, List.nil_append, List.append_nil] at henc
+  refine ⟨L, _, hsplit, (columnNameToNumber_ok_iff L c).mpr ⟨hL, c, hraw, hc2, rfl⟩, hjoin, henc, ?_⟩
+  have := decode_of_shape (cell_encode_shape c r false hc1 hc2 hr1 hr2)
+  simpa using this
+
+/-- the grid codec factors through split/join: on the whole grid
+`JoinCellName (ColumnNumberToName c) r = CoordinatesToCellName c r`. -/
+theorem join_eq_cell_encode (c r : Nat) (hc1 : 1 ≤ c) (hc2 : c ≤ Facts.MaxColumns)
+    (hr1 : 1 ≤ r) (hr2 : r ≤ Facts.TotalRows) :
+    joinCellName (numToName c) (r : Int) = coordinatesToCellName (c : Int) (r : Int) false := by
+  have henc := cell_encode_eq c r false hc1 hc2 hr1 hr2
+  simp only [Bool.false_eq_true, if_false, List.nil_append, List.append_nil] at henc
+  rw [henc, joinCellName_ok_iff]
+  refine ⟨numToName_ne_nil hc1, numToName_letters c, by omega, ?_⟩
+  have : (numToName c).map toUpper = numToName c := map_toUpper_of_up _ (numToName_upper c)
+  rw [this]; simp
+
+/-- what is NOT true (and is outside the statement): `SplitCellName` is a syntactic
+splitter, not a validator. It accepts names whose column part contains digits or
+spaces between letters (`A1B2` → (`A1B`, 2)) and names outside the grid; both are
+rejected by `JoinCellName` resp. by the cell codec, so no such string is mapped to
+a coordinate (that is `rejects_non_a1`). -/
+theorem split_is_syntactic :
+    splitCellName ['A', '1', 'B', '2'] = .ok (['A', '1', 'B'], 2) ∧
+    (∃ e, joinCellName ['A', '1', 'B'] 2 = .error e) ∧
+    (∃ e, cellNameToCoordinates ['A', '1', 'B', '2'] = .error e) ∧
+    splitCellName ['X', 'F', 'E', '1'] = .ok (['X', 'F', 'E'], 1) ∧
+    joinCellName ['X', 'F', 'E'] 1048577 = .ok ['X', 'F', 'E', '1', '0', '4', '8', '5', '7', '7'] := by
+  refine ⟨by decide +kernel, ⟨.colName, by decide +kernel⟩, ⟨.colName, by decide +kernel⟩,
+    by decide +kernel, by decide +kernel⟩
+
+/-! ## Exact acceptance of `rangeRefToCoordinates` -/
+
+/-- **exact acceptance of the range decoder**: `rangeRefToCoordinates ref` succeeds
+with `(c1, r1, c2, r2)` iff `ref` is `A:B` or `A:B:<anything>` where `A` and `B`
+contain no colon and, after EVERY `$` in them has been deleted, are strict A1
+references inside the grid denoting `(c1, r1)` and `(c2, r2)`. -/
+theorem range_decode_accepts_iff (ref : List Char) (c1 r1 c2 r2 : Int) :
+    rangeRefToCoordinates ref = .ok (c1, r1, c2, r2) ↔
+      ∃ n1 m1 n2 m2 : Nat, c1 = n1 ∧ r1 = m1 ∧ c2 = n2 ∧ r2 = m2 ∧ RangeLoose ref n1 m1 n2 m2 :=
+  rangeRef_ok_iff ref c1 r1 c2 r2
+
+/-- completeness: every strict range reference `cell:cell` (each corner with its
+own optional absolute markers, any casing, leading zeros) is accepted and decoded
+to the corners it denotes — `range_encode_decode` for every spelling, not only
+the encoder's output. -/
+theorem range_strict_accepted (ref : List Char) (c1 r1 c2 r2 : Nat)
+    (h : parseRangeStrict ref = some (c1, r1, c2, r2)) :
+    rangeRefToCoordinates ref = .ok ((c1 : Int), (r1 : Int), (c2 : Int), (r2 : Int)) :=
+  (rangeRef_ok_iff ref _ _ _ _).mpr ⟨c1, r1, c2, r2, rfl, rfl, rfl, rfl,
+    rangeLoose_of_strict ((parseRangeStrict_iff ref c1 r1 c2 r2).mp h)⟩
+
+/-- strictness holds only for corner *values*: whatever is accepted lies inside the grid -/
+theorem range_decode_in_grid (ref : List Char) (c1 r1 c2 r2 : Int)
+    (h : rangeRefToCoordinates ref = .ok (c1, r1, c2, r2)) :
+    1 ≤ c1 ∧ c1 ≤ (Facts.MaxColumns : Int) ∧ 1 ≤ r1 ∧ r1 ≤ (Facts.TotalRows : Int) ∧
+    1 ≤ c2 ∧ c2 ≤ (Facts.MaxColumns : Int) ∧ 1 ≤ r2 ∧ r2 ≤ (Facts.TotalRows : Int) := by
+  obtain ⟨n1, m1, n2, m2, rfl, rfl, rfl, rfl, _, _, _, _, _, _, _, hs1, hs2⟩ :=
+    (rangeRef_ok_iff ref _ _ _ _).mp h
+  obtain ⟨_, _, _, _, _, _, _, _, _, _, _, _, a1, a2, _, a3, a4⟩ := hs1
+  obtain ⟨_, _, _, _, _, _, _, _, _, _, _, _, b1, b2, _, b3, b4⟩ := hs2
+  omega
+
+/-- **finding (open)**: the range decoder is NOT strict. It maps strings that are not
+`cell:cell` references to coordinates: a `$` anywhere (`A$$1:B2`, `A1$:$$B2$`), and
+anything after a second colon (`A1:B2:junk`, and — through `MergeCell(sheet,
+"D1:E2", "F9")`, which concatenates its two cell-name arguments with `:` — a
+whole range passed as a cell name, the second argument being ignored). Public APIs
+that take cell names and decode them through it (MergeCell, UnmergeCell) therefore
+accept strings that are not A1 references: oracle signatures
+`rngapi:accept-non-a1:stray-dollar`, `rngapi:accept-non-a1:extra-colon-part`. -/
+theorem finding_range_decode_not_strict :
+    (rangeRefToCoordinates ['A', '$', '$', '1', ':', 'B', '2'] = .ok (1, 1, 2, 2) ∧
+      parseRangeStrict ['A', '$', '$', '1', ':', 'B', '2'] = none) ∧
+    (rangeRefToCoordinates ['A', '1', ':', 'B', '2', ':', 'j', 'u', 'n', 'k'] = .ok (1, 1, 2, 2) ∧
+      parseRangeStrict ['A', '1', ':', 'B', '2', ':', 'j', 'u', 'n', 'k'] = none) ∧
+    (rangeRefToCoordinates (['D', '1', ':', 'E', '2'] ++ [':'] ++ ['F', '9']) = .ok (4, 1, 5, 2) ∧
+      parseA1 ['D', '1', ':', 'E', '2'] = none) := by
+  refine ⟨⟨by decide +kernel, by decide +kernel⟩, ⟨by decide +kernel, by decide +kernel⟩,
+    ⟨by decide +kernel, by decide +kernel⟩⟩
+
+/-- what remains true of the lenient decoder (`…_partial`: the missing hypothesis is
+"`ref` has exactly one colon and no `$` outside the two optional positions of each
+corner", i.e. `parseRangeStrict ref ≠ none`): on strict references it is exact. -/
+theorem range_decode_strict_partial (ref : List Char) (c1 r1 c2 r2 : Int)
+    (hstrict : (parseRangeStrict ref).isSome = true) :
+    rangeRefToCoordinates ref = .ok (c1, r1, c2, r2) ↔
+      ∃ n1 m1 n2 m2 : Nat, c1 = n1 ∧ r1 = m1 ∧ c2 = n2 ∧ r2 = m2 ∧
+        parseRangeStrict ref = some (n1, m1, n2, m2) := by
+  obtain ⟨⟨a, b, c, d⟩, hp⟩ := Option.isSome_iff_exists.mp hstrict
+  have hacc := range_strict_accepted ref a b c d hp
+  constructor
+  · intro h
+    rw [hacc] at h
+    simp only [Except.ok.injEq, Prod.mk.injEq] at h
+    exact ⟨a, b, c, d, h.1.symm, h.2.1.symm, h.2.2.1.symm, h.2.2.2.symm, hp⟩
+  · rintro ⟨n1, m1, n2, m2, rfl, rfl, rfl, rfl, hq⟩
+    exact range_strict_accepted ref n1 m1 n2 m2 hq
 
 /-! ## Spellings: every accepted spelling of a cell addresses the same cell -/
 
